@@ -523,6 +523,126 @@ func (g *vsmGen) prefixLateCredential() {
 	}
 }
 
+// Directed equivocation schedule for the cert step (C03 "distinct voters whose total weight reaches the
+// threshold"): X votes the winning value A and then equivocates, Z votes another value and then
+// equivocates, repeats / stale copies of their votes are interleaved in random order, and the honest
+// filler votes for A are chosen so that the quorum is crossed only WITH the equivocators' weight while
+// (fillers + X) stays below the threshold: a tracker that keeps X's stale first vote packs X twice.
+func (g *vsmGen) prefixEquivCert() {
+	R, P := g.pl().Round, g.pl().Period
+	c := g.c
+	vs := g.values(R)
+	A, B := vs[0], vs[len(vs)-1]
+	if A == B {
+		B = c.newValue(R, 0, 1+uint64(c.rnd.Intn(int(g.ns))))
+		g.pool[R] = append(g.pool[R], B)
+	}
+	g.fav[vsmKey{R, P, soft}] = A
+	g.hasFav[vsmKey{R, P, soft}] = true
+	T := cert.threshold(c.proto)
+	w := func(s uint64) uint64 { return c.weight(s, R, P, cert) }
+	// search X, Z, fillers (senders 1..10) satisfying the window
+	type plan struct {
+		x, z    uint64
+		fillers []uint64 // last one crosses the threshold
+	}
+	var plans []plan
+	for x := uint64(1); x <= 10; x++ {
+		for z := uint64(1); z <= 10; z++ {
+			if z == x {
+				continue
+			}
+			E := w(x) + w(z)
+			var others []uint64
+			for s := uint64(1); s <= 10; s++ {
+				if s != x && s != z {
+					others = append(others, s)
+				}
+			}
+			for mask := 1; mask < 1<<uint(len(others)); mask++ {
+				var f []uint64
+				var sum uint64
+				for i, s := range others {
+					if mask&(1<<uint(i)) != 0 {
+						f = append(f, s)
+						sum += w(s)
+					}
+				}
+				if len(f) < 2 || len(f) > 3 {
+					continue
+				}
+				last := f[len(f)-1]
+				if sum+E >= T && sum-w(last)+E < T && sum+w(x) < T {
+					plans = append(plans, plan{x, z, f})
+				}
+			}
+		}
+	}
+	if len(plans) == 0 {
+		return
+	}
+	pl := plans[c.rnd.Intn(len(plans))]
+	// block A proposed, payload validated (so that the cert threshold commits)
+	pvv, rank := c.mkVote(vsmSnd(A.OriginalProposer), R, P, propose, A)
+	g.push(c.voteEvent(true, pvv, rank, vsmMeta{}, nil))
+	g.push(c.payloadEvent(true, A, vsmMeta{}))
+	send := func(s uint64, v proposalValue) {
+		if g.dead || g.pl().Round != R {
+			return
+		}
+		vv, rk := c.mkVote(s, R, P, cert, v)
+		g.push(c.voteEvent(true, vv, rk, vsmMeta{}, nil))
+		g.noteSent(vv)
+	}
+	// constrained random order: fillers[0] and X->A first (X's entry must not be the only vote when X
+	// equivocates), Z->B before Z->A, X->A before X->B; repeats / stale copies anywhere after their original
+	type ev struct {
+		s uint64
+		v proposalValue
+	}
+	first := []ev{{pl.fillers[0], A}, {pl.x, A}}
+	if c.rnd.Bool() {
+		first[0], first[1] = first[1], first[0]
+	}
+	mid := []ev{{pl.z, B}, {pl.x, B}, {pl.z, A}}
+	// shuffle mid keeping Z->B before Z->A
+	for tries := 0; tries < 4; tries++ {
+		i, j := c.rnd.Intn(3), c.rnd.Intn(3)
+		mid[i], mid[j] = mid[j], mid[i]
+	}
+	zb, za := -1, -1
+	for i, e := range mid {
+		if e.s == pl.z && e.v == B {
+			zb = i
+		}
+		if e.s == pl.z && e.v == A {
+			za = i
+		}
+	}
+	if zb > za {
+		mid[zb], mid[za] = mid[za], mid[zb]
+	}
+	seq := append(first, mid...)
+	for _, f := range pl.fillers[1 : len(pl.fillers)-1] {
+		k := 2 + c.rnd.Intn(len(seq)-1)
+		seq = append(seq[:k:k], append([]ev{{f, A}}, seq[k:]...)...)
+	}
+	// stale copies / repeats of A and B votes of the equivocators and of a filler
+	for n := c.rnd.Intn(4); n > 0; n-- {
+		k := 2 + c.rnd.Intn(len(seq)-1)
+		cp := []ev{{pl.x, A}, {pl.x, B}, {pl.z, A}, {pl.z, B}, {pl.fillers[0], A}}[c.rnd.Intn(5)]
+		seq = append(seq[:k:k], append([]ev{cp}, seq[k:]...)...)
+	}
+	for _, e := range seq {
+		send(e.s, e.v)
+	}
+	send(pl.fillers[len(pl.fillers)-1], A) // crosses the threshold only together with the equivocators
+	for n := c.rnd.Intn(3); n > 0; n-- {
+		cp := []ev{{pl.x, A}, {pl.x, B}, {pl.z, A}}[c.rnd.Intn(3)]
+		send(cp.s, cp.v)
+	}
+}
+
 // tagged: valid cert bundle of an old period => router GC nil dereference
 func (g *vsmGen) prefixNilRouter() {
 	g.prefixNextPeriods(4, false)
@@ -552,6 +672,8 @@ func vsmGenerate(c *vsmCtx, r0 round, n int, scenario int, prefix string, stats 
 		g.prefixLateCredential()
 	case "nilrouter":
 		g.prefixNilRouter()
+	case "equivcert":
+		g.prefixEquivCert()
 	}
 	r00, p00 := g.pl().Round, g.pl().Period
 	for len(g.events) < n && !g.dead {
@@ -711,7 +833,11 @@ func TestVerifSM(t *testing.T) {
 	defer out.Close()
 	stats := vsmNewStats()
 	versions := []protocol.ConsensusVersion{protocol.ConsensusCurrentVersion, protocol.ConsensusV38}
-	prefixes := []string{"", "happy", "latepayload", "next", "latecred", "", "happy", ""}
+	prefixes := []string{"", "happy", "latepayload", "next", "latecred", "", "happy", "", "equivcert"}
+	if os.Getenv("VERIF_SEARCH") != "" {
+		// violation search: mostly directed schedules
+		prefixes = []string{"equivcert", "equivcert", "happy", "latepayload", "next", "latecred", ""}
+	}
 	nilCases := 0
 	for i := 0; i < n; i++ {
 		ver := versions[i%len(versions)]
